@@ -1392,6 +1392,15 @@ pub fn invariants<K: KeyT, V: ValT, const N: usize>(m: &Map<K, V, N>, cx: &mut C
             format!("get_key_value({}) does not return the entry yielded by iter()", k.kd())
         });
         cx.check(pm, m.contains_key::<K>(k), || format!("contains_key({}) is false for a yielded key", k.kd()));
+        // ... and through its borrowed form (which may be unsized, zero-sized, or spelled differently)
+        if K::DISTINCT_Q {
+            let (bq, bkv, bc) = K::with_q(k.kd().k, |q| {
+                (m.get(q).map(|x| x as *const V), m.get_key_value(q).map(|(a, b)| (a as *const K, b as *const V)), m.contains_key(q))
+            });
+            cx.check(pm, bq == Some(*v as *const V) && bkv == Some((*k as *const K, *v as *const V)) && bc, || {
+                format!("key {} yielded by iter() does not look up, through its borrowed form, to the entry yielded with it", k.kd())
+            });
+        }
     }
 }
 
